@@ -48,16 +48,149 @@ impl Prop for Histories {
     }
 }
 
+/// Resolver level: a record learnt from upstream must not be answered once
+/// its TTL has passed, even though upstream has changed meanwhile.
+#[derive(Debug, Clone, PartialEq, Eq, Hash, serde::Serialize, serde::Deserialize)]
+pub struct ResolverCase {
+    pub ttl: u32,
+    /// how long before expiry the second question is asked (ms, 1..=ttl*1000-1)
+    pub before_expiry_ms: u32,
+    /// how long after expiry the third question is asked (ms, >= 0)
+    pub after_expiry_ms: u32,
+    pub prune_between: bool,
+    pub forwarding: bool,
+    pub qtype: u16,
+}
+
+pub struct ResolverLevel;
+
+impl Prop for ResolverLevel {
+    type Case = ResolverCase;
+    fn name(&self) -> &'static str {
+        "resolver-level"
+    }
+    fn tape_len(&self) -> usize {
+        16
+    }
+    fn cases(&self, tier: Tier) -> u64 {
+        tier.pick(6_000, 300_000)
+    }
+    fn generate(&self, g: &mut Gen) -> ResolverCase {
+        let ttl = g.pick(&[1u32, 2, 5, 60, 300]);
+        ResolverCase {
+            ttl,
+            before_expiry_ms: g.pick(&[1u32, 500, 999, 1000, 1001, 1500]).min(ttl * 1000 - 1).max(1),
+            after_expiry_ms: g.pick(&[0u32, 1, 999, 1000, 60_000]),
+            prune_between: g.bool(),
+            forwarding: g.chance(1, 3),
+            qtype: g.pick(&[1u16, 16]),
+        }
+    }
+    fn check(&self, c: &ResolverCase) -> Outcome {
+        use crate::mock::*;
+        use crate::rwire::{rr_from_impl, WData, WMsg, WRR};
+        use crate::rzone::{ZRec, ZoneModel, T_A, T_NS};
+        use crate::util::N;
+        use dns_resolver::cache::{verif as clock, SharedCache};
+        use dns_resolver::util::types::{ProtocolMode, ResolvedRecord};
+        use std::sync::atomic::{AtomicU32, Ordering};
+        use std::sync::Arc;
+
+        let version = Arc::new(AtomicU32::new(1));
+        let v2 = version.clone();
+        let (ttl, qtype, forwarding) = (c.ttl, c.qtype, c.forwarding);
+        let name = N::parse("www.x.");
+        let n2 = name.clone();
+        let mock = Mock::new(Box::new(move |ctx: &Ctx| {
+            let Some(req) = ctx.request else { return Action::Silence };
+            let Some(q) = req.questions.first() else { return Action::Silence };
+            let v = v2.load(Ordering::SeqCst);
+            let data = if qtype == 1 { WData::A([198, 51, 100, v as u8]) } else { WData::Opaque(format!("version-{v}").into_bytes()) };
+            let answers = if q.name.lower() == n2 && q.qtype == qtype { vec![WRR { name: n2.clone(), rtype: qtype, rclass: 1, ttl, data }] } else { vec![] };
+            let m = WMsg { id: 0, qr: true, opcode: 0, aa: !forwarding, tc: false, rd: req.rd, ra: forwarding, rcode: 0, questions: vec![q.clone()], answers, authority: vec![], additional: vec![] };
+            Action::Reply { bytes: wire_reply(m, req, ctx.tcp), delay_ms: 5, label: format!("v{v}") }
+        }));
+        let mut hints = ZoneModel { apex: N::root(), soa: None, recs: vec![] };
+        hints.recs.push(ZRec { owner: N::root(), wild: false, rtype: T_NS, data: WData::Name(N::parse("a.rs.")), ttl: 3600 });
+        hints.recs.push(ZRec { owner: N::parse("a.rs."), wild: false, rtype: T_A, data: WData::A([10, 0, 0, 1]), ttl: 3600 });
+        let mut zones = dns_types::zones::types::Zones::new();
+        zones.insert(hints.to_impl());
+        let cache = SharedCache::new();
+        let mode = if c.forwarding { Mode::Forwarding { address: "192.0.2.53:53".parse().unwrap() } } else { Mode::Recursive { protocol: ProtocolMode::OnlyV4, port: 53 } };
+        let q = super::c07::to_question(&crate::rwire::WQ { name: name.clone(), qtype: c.qtype, qclass: 1 });
+        let t0: u64 = 5_000_000_000;
+        let expiry = t0 + u64::from(c.ttl) * 1_000_000_000;
+        let out = Outcome::pass(true).class(if c.forwarding { "forwarding" } else { "recursive" });
+        let ask = |now: u64| -> Result<Vec<(u32, u32)>, String> {
+            clock::set_virtual_nanos(Some(now));
+            let r = run_resolve(&mock, mode, &zones, &cache, &q);
+            match r.result {
+                Err(p) => Err(format!("panic: {p}")),
+                Ok(Err(e)) => Err(format!("{e:?}")),
+                Ok(Ok(ResolvedRecord::NonAuthoritative { rrs, .. })) | Ok(Ok(ResolvedRecord::Authoritative { rrs, .. })) => Ok(rrs
+                    .iter()
+                    .map(rr_from_impl)
+                    .map(|w| {
+                        let v = match &w.data {
+                            WData::A(a) => u32::from(a[3]),
+                            WData::Opaque(o) => String::from_utf8_lossy(o).trim_start_matches("version-").parse().unwrap_or(0),
+                            _ => 0,
+                        };
+                        (v, w.ttl)
+                    })
+                    .collect()),
+                Ok(Ok(other)) => Err(format!("{other:?}")),
+            }
+        };
+        // 1. learn version 1
+        match ask(t0) {
+            Ok(v) if v.len() == 1 && v[0].0 == 1 => {}
+            other => return out.fail("first-answer-wrong", format!("{other:?}")),
+        }
+        version.store(2, std::sync::atomic::Ordering::SeqCst);
+        if c.prune_between {
+            let _ = cache.prune();
+        }
+        // 2. shortly before expiry: the cached version with an honest TTL, or already the new one
+        let now2 = expiry - u64::from(c.before_expiry_ms) * 1_000_000;
+        match ask(now2) {
+            Ok(v) if v.len() == 1 && v[0].0 == 2 => {}
+            Ok(v) if v.len() == 1 && v[0].0 == 1 => {
+                let left = expiry - now2;
+                if u64::from(v[0].1) * 1_000_000_000 > left {
+                    clock::set_virtual_nanos(None);
+                    return out.fail("ttl-exceeds-remaining", format!("cached answer reports ttl {} s with {left} ns left", v[0].1));
+                }
+            }
+            other => {
+                clock::set_virtual_nanos(None);
+                return out.fail("second-answer-wrong", format!("{other:?}"));
+            }
+        }
+        if c.prune_between {
+            let _ = cache.prune();
+        }
+        // 3. at / after expiry: never the old version
+        let r3 = ask(expiry + u64::from(c.after_expiry_ms) * 1_000_000);
+        clock::set_virtual_nanos(None);
+        match r3 {
+            Ok(v) if v.len() == 1 && v[0].0 == 2 => out,
+            Ok(v) if v.iter().any(|x| x.0 == 1) => out.fail("served-past-ttl", format!("version 1 (ttl {} s) answered {} ms after it expired: {v:?}", c.ttl, c.after_expiry_ms)),
+            other => out.fail("third-answer-wrong", format!("{other:?}")),
+        }
+    }
+}
+
 pub fn def() -> PropertyDef {
     PropertyDef {
         id: "C05",
         level: "exploration",
-        rule: "Histories of 1..80 operations over 4 names x 4 types x 3 values on the virtual clock (hook H1): insert with TTL in {0,1,2,5,300,u32::MAX}, re-insert, lookup by type, ANY lookup, unchecked lookup, prune, advance by {1 ns, 1 ms, 999 ms, 1 s, ttl-1 ms, ttl, ttl+1 ms, 1 h}; against SharedCache (5/6) or Cache (1/6). Oracle: a map (name,type,data) -> expiry; after every lookup each returned record is in the model, unexpired, data unchanged, reported TTL <= time left, and every model record with >= 1 s left is returned exactly once; after every operation the stored set read through the inspection hook (H4) equals the model (nothing lost, resurrected, duplicated or re-timed); TTL-0 inserts leave the shared cache unchanged. Non-trivial = some lookup returned a record after time had passed since its insertion; distinct by hash of the history.",
+        rule: "Histories of 1..80 operations over 4 names x 4 types x 3 values on the virtual clock (hook H1): insert with TTL in {0,1,2,5,300,u32::MAX}, re-insert, lookup by type, ANY lookup, unchecked lookup, prune, advance by {1 ns, 1 ms, 999 ms, 1 s, ttl-1 ms, ttl, ttl+1 ms, 1 h}; against SharedCache (5/6) or Cache (1/6). Oracle: a map (name,type,data) -> expiry; after every lookup each returned record is in the model, unexpired, data unchanged, reported TTL <= time left, and every model record with >= 1 s left is returned exactly once; after every operation the stored set read through the inspection hook (H4) equals the model (nothing lost, resurrected, duplicated or re-timed); TTL-0 inserts leave the shared cache unchanged. Non-trivial = some lookup returned a record after time had passed since its insertion; distinct by hash of the history. resolver-level: through resolve() in recursive or forwarding mode against a mock upstream (hook H2): a record with TTL 1..300 s is learnt, upstream then changes it, the question is repeated 1 ms..1.5 s before expiry (answer = old value with reported TTL <= time left, or already the new value) and 0..60 s after expiry (answer must be the new value, never the old one), with and without prune calls in between; every such case is non-trivial.",
         assumptions: vec![
             "records with 0 < remaining < 1 s may or may not be returned (the cache reports whole seconds)",
             "eviction by prune is validated by C15 and then adopted by the model",
         ],
-        parts: vec![Box::new(Histories)],
+        parts: vec![Box::new(Histories), Box::new(ResolverLevel)],
         budget_s: |t| t.pick(600, 7200),
         needs_repo_bins: false,
     }
